@@ -511,3 +511,8 @@ class World(object):
         finally:
             unmake_current()
             CURRENT = None
+        from vt import simkernel
+        if simkernel.MODEL_ERRORS:
+            errs = list(simkernel.MODEL_ERRORS)
+            del simkernel.MODEL_ERRORS[:]
+            raise simkernel.ModelError('the environment model raised: %s' % errs[0])
